@@ -53,6 +53,15 @@ def cases(draw):
     sp = draw(gen.start_points(recipe))
     if sp is not None:
         params = dict(params, startPoint=sp)      # SolverParameters.startPoint (ignored by the pinned code)
+    if draw(st.integers(0, 11)) == 0:
+        # the objective has no finite value at one trial (or from one trial on): it hands back NaN or an infinity.
+        # Solve always terminates - decided by an executed-line bound, not by a clock
+        style = dict(recipe.get("style") or {}, nonfinite={"at": draw(st.integers(1, 12)),
+                                                             "value": draw(st.sampled_from(["nan", "inf", "-inf"])),
+                                                             "from": draw(st.booleans())})
+        style["holder"] = "same"
+        return {"recipe": dict(recipe, style=style), "params": dict(params, itersLimit=min(params["itersLimit"], 300)),
+                "nonfinite": True}
     case = {"recipe": recipe, "params": params}
     if draw(st.integers(0, 3)) == 0:
         # part of the budget is spent through DoGlobalIteration before Solve (never more than itersLimit, possibly
@@ -68,7 +77,27 @@ def cases(draw):
     return case
 
 
+def nonfinite_body(case):
+    p = case["params"]
+    run = Run(case["recipe"], p)
+    run.line_guard = True
+    run.problem.max_calls = p["itersLimit"] + 3
+    sol = run.solve()              # a call that never returns is reported by the line bound
+    if run.problem.runaway:
+        fail("Solve kept evaluating the objective beyond itersLimit+3 = %d evaluations" % (p["itersLimit"] + 3))
+    n = len(run.problem.log)       # evaluations with a finite value
+    if sol.numberOfGlobalTrials != n:
+        fail("objective without a finite value at call %d: reported numberOfGlobalTrials=%r, %d evaluations "
+             "produced a value" % (case["recipe"]["style"]["nonfinite"]["at"], sol.numberOfGlobalTrials, n))
+    if n > p["itersLimit"]:
+        fail("%d evaluations exceed itersLimit=%d" % (n, p["itersLimit"]))
+    hit = run.problem.calls > n
+    return hit, ["N=%d" % run.n, "non-finite-objective-value:" + ("hit" if hit else "not-reached")]
+
+
 def body(case):
+    if case.get("nonfinite"):
+        return nonfinite_body(case)
     p = case["params"]
     eps, limit, r = p["eps"], p["itersLimit"], p["r"]
     run = Run(case["recipe"], p)
